@@ -6,7 +6,8 @@ import re
 from typing import Dict, List, Optional, Set, Tuple
 
 from ..core import AnalysisError, RuleSpec
-from ..pymodel import call_name
+from ..pymodel import PyModel, call_name
+from .. import astq
 from . import c09
 
 EXPLANATION = (
@@ -51,58 +52,155 @@ def has_permission(py, cls: str) -> bool:
 
 
 def prune_paths(py, cls: str) -> Optional[List[Tuple[str, Dict[str, str]]]]:
-    """[(path label, {attr: 'filtered'|'emptied'|'other'})] for the prune() that runs for cls."""
+    """[(path label, {attr: 'filtered'|'emptied'|'other'})] for the prune() that runs for cls.
+
+    A small symbolic execution of prune(): assignments to self.<attr>, setattr(self, <constant name>, v), loops over
+    constant name tuples (unrolled) and calls of the class's own helper methods (inlined with their arguments bound,
+    including *CONSTANT_TUPLE) are followed; guards are decided for the concrete class where possible."""
     r = py.resolve_method(cls, "prune")
     if r is None:
         return None
     owner, fn = r
     paths: List[Tuple[str, Dict[str, str]]] = []
+    menv = py.module_env(py.classes[owner].module)
+    U = PyModel._UNKNOWN
 
-    def classify(v: ast.AST) -> str:
-        t = ast.unparse(v)
-        if "filter_display(" in t:
-            return "filtered"
+    def classify(v: ast.AST, env: Dict[str, object], locals_: Dict[str, ast.AST]) -> str:
+        seen = set()
+        todo = [v]
+        while todo:
+            x = todo.pop()
+            for n in ast.walk(x):
+                if isinstance(n, ast.Call) and call_name(n).endswith("filter_display"):
+                    return "filtered"
+                if isinstance(n, ast.Name) and n.id in locals_ and n.id not in seen:
+                    seen.add(n.id)
+                    todo.append(locals_[n.id])
         if isinstance(v, ast.List) and not v.elts:
             return "emptied"
         return "other"
 
-    def collect(stmts, acc: Dict[str, str], label: str, myobj):
+    class St:
+        __slots__ = ("acc", "label", "env", "loc")
+
+        def __init__(self, acc, label, env, loc):
+            self.acc, self.label, self.env, self.loc = acc, label, env, loc
+
+        def fork(self, suffix=""):
+            return St(dict(self.acc), self.label + suffix, dict(self.env), dict(self.loc))
+
+    def run(stmts, states: List["St"], depth: int) -> List["St"]:
+        """executes stmts on every live state (forking at undecidable guards); returns the states still live"""
         for st in stmts:
+            if not states:
+                return states
+            if isinstance(st, ast.Expr) and isinstance(st.value, ast.Constant):
+                continue
             if isinstance(st, ast.If):
-                allow = guard_value(py, cls, st.test)
-                if allow is not False:
-                    a2 = dict(acc)
-                    ended = collect(st.body, a2, label + "/" + ast.unparse(st.test)[:90], myobj)
-                    if ended:
-                        if allow is True:
-                            return True
-                    else:
-                        if allow is True:
-                            acc.update(a2)
-                        # unknown guard that does not return: keep only unconditional facts
-                if allow is not True and st.orelse:
-                    collect(st.orelse, acc, label, myobj)
+                nxt: List[St] = []
+                for s0 in states:
+                    allow = guard_value(py, cls, st.test, s0.loc)
+                    ttxt = ast.unparse(s0.loc[st.test.id] if isinstance(st.test, ast.Name) and st.test.id in s0.loc else st.test)[:90]
+                    if allow is not False:
+                        nxt += run(st.body, [s0.fork("/" + ttxt) if allow is None else s0], depth)
+                    if allow is not True:
+                        s1 = s0.fork("/not " + ttxt) if allow is None else s0
+                        nxt += run(st.orelse, [s1], depth) if st.orelse else [s1]
+                states = nxt
                 continue
             if isinstance(st, ast.Return):
-                paths.append((label, dict(acc)))
-                return True
-            if isinstance(st, ast.Assign):
-                for t in st.targets:
-                    if isinstance(t, ast.Attribute) and isinstance(t.value, ast.Name) and t.value.id == "self":
-                        acc[t.attr] = classify(st.value)
-        return False
+                if depth == 0:
+                    for s0 in states:
+                        paths.append((s0.label, dict(s0.acc)))
+                return []
+            if isinstance(st, (ast.Assign, ast.AnnAssign)) and getattr(st, "value", None) is not None:
+                tg = st.targets if isinstance(st, ast.Assign) else [st.target]
+                for s0 in states:
+                    for t in tg:
+                        if isinstance(t, ast.Attribute) and isinstance(t.value, ast.Name) and t.value.id == "self":
+                            s0.acc[t.attr] = classify(st.value, s0.env, s0.loc)
+                        elif isinstance(t, ast.Name):
+                            s0.loc[t.id] = st.value
+                            v = py.eval_const(st.value, {**menv, **s0.env})
+                            if v is not U:
+                                s0.env[t.id] = v
+                            else:
+                                s0.env.pop(t.id, None)
+                continue
+            if isinstance(st, ast.For) and isinstance(st.target, ast.Name):
+                nxt = []
+                for s0 in states:
+                    seq = py.eval_const(st.iter, {**menv, **s0.env})
+                    live = [s0]
+                    if seq is not U and isinstance(seq, (tuple, list)):
+                        for x in seq:
+                            for l in live:
+                                l.env[st.target.id] = x
+                            live = run(st.body, live, depth)
+                    nxt += live
+                states = nxt
+                continue
+            if isinstance(st, ast.Expr) and isinstance(st.value, ast.Call):
+                c = st.value
+                cn = call_name(c)
+                if cn == "setattr" and len(c.args) == 3 and ast.unparse(c.args[0]) == "self":
+                    for s0 in states:
+                        name = py.eval_const(c.args[1], {**menv, **s0.env})
+                        if isinstance(name, str):
+                            s0.acc[name] = classify(c.args[2], s0.env, s0.loc)
+                    continue
+                if isinstance(c.func, ast.Attribute) and isinstance(c.func.value, ast.Name) and c.func.value.id == "self" and depth < 2:
+                    h = py.resolve_method(cls, c.func.attr)
+                    if h is not None and h[1] is not fn and c.func.attr not in ("filter_display",):
+                        hd = h[1]
+                        params = [a.arg for a in hd.args.args][1:]
+                        nxt = []
+                        for s0 in states:
+                            vals: List[object] = []
+                            known = True
+                            for a in c.args:
+                                if isinstance(a, ast.Starred):
+                                    v = py.eval_const(a.value, {**menv, **s0.env})
+                                    if v is U or not isinstance(v, (tuple, list)):
+                                        known = False
+                                        break
+                                    vals.extend(v)
+                                else:
+                                    v = py.eval_const(a, {**menv, **s0.env})
+                                    if v is U:
+                                        known = False
+                                        break
+                                    vals.append(v)
+                            if not known:
+                                nxt.append(s0)
+                                continue
+                            env2: Dict[str, object] = {}
+                            for i, pn in enumerate(params):
+                                if i < len(vals):
+                                    env2[pn] = vals[i]
+                            if hd.args.vararg is not None:
+                                env2[hd.args.vararg.arg] = tuple(vals[len(params):])
+                            inner = St(s0.acc, s0.label, env2, {})
+                            run(hd.body, [inner], depth + 1)
+                            nxt.append(s0)
+                        states = nxt
+                continue
+        return states
 
-    acc: Dict[str, str] = {}
-    if not collect(fn.body, acc, "prune", c09.obj_value(py, cls)):
-        paths.append(("prune", acc))
+    for s0 in run(fn.body, [St({}, "prune", {}, {})], 0):
+        paths.append((s0.label, dict(s0.acc)))
+    if not paths:
+        paths.append(("prune", {}))
     return paths
 
 
-def guard_value(py, cls: str, test: ast.AST) -> Optional[bool]:
+def guard_value(py, cls: str, test: ast.AST, locals_: Optional[Dict[str, ast.AST]] = None) -> Optional[bool]:
     """True/False when decidable for the concrete class, else None."""
     myobj = c09.obj_value(py, cls)
+    if isinstance(test, ast.Name) and locals_ and test.id in locals_:
+        return guard_value(py, cls, locals_[test.id], locals_)
     if isinstance(test, ast.BoolOp) and isinstance(test.op, ast.And):
-        vals = [guard_value(py, cls, v) for v in test.values]
+        vals = [guard_value(py, cls, v, locals_) for v in test.values]
         if any(v is False for v in vals):
             return False
         if all(v is True for v in vals):
@@ -160,7 +258,8 @@ def r1_prune_coverage(ctx, rep):
                            loc, nontrivial=False)
                     continue
                 missing = [lbl for lbl, acc in paths if acc.get(coll) not in ("filtered", "emptied")
-                           and not (coll in KEPT_WITHOUT_INTERNALS and "proc_internals" in lbl)]
+                           and not (coll in KEPT_WITHOUT_INTERNALS and any(
+                               "proc_internals" in seg and not seg.startswith("not ") for seg in lbl.split("/")))]
                 ok = not missing
                 rep.ob(f"class={cls} page={tpl} collection={coll}", ok,
                        (f"{cls}.prune assigns self.{coll} through filter_display/[] on every path" if ok else
@@ -293,21 +392,22 @@ def r4_display_logic(ctx, rep):
            "alone is silently ignored", py.nloc(words_tests[0]) if words_tests else py.nloc(st))
     ok = "'none' in tmp" in t and "self.display = []" in t
     rep.ob("_set_display handles none", ok, "`display: none` empties the selection", py.nloc(st))
-    # proc_internals branch applies to every class whose obj is 'proc'
-    pr = py.func("FortranCodeUnit.prune")
-    first = pr.body[0] if not isinstance(pr.body[0], ast.Expr) else pr.body[1]
-    if not (isinstance(first, ast.If) and "proc_internals" in ast.unparse(first.test)):
-        raise AnalysisError("FortranCodeUnit.prune: proc_internals branch not found")
+    # proc_internals off: every class whose obj is 'proc' empties its internal collections on that path
+    internals = ("functions", "subroutines", "types", "interfaces", "absinterfaces", "variables")
+    n_proc = 0
     for cls in py.subclasses("FortranCodeUnit"):
         if cls.startswith("External") or c09.obj_value(py, cls) != "proc":
             continue
-        parts = first.test.values if isinstance(first.test, ast.BoolOp) else [first.test]
-        struct = [p for p in parts if "proc_internals" not in ast.unparse(p)]
-        val = all(guard_value(py, cls, p) is True for p in struct) if struct else True
+        n_proc += 1
+        paths = prune_paths(py, cls) or []
+        off = [(lbl, acc) for lbl, acc in paths if any("proc_internals" in seg and not seg.startswith("not ") for seg in lbl.split("/"))]
+        val = bool(off) and all(all(acc.get(k) == "emptied" for k in internals) for _, acc in off)
         rep.ob(f"proc_internals branch applies to {cls}", val,
                "a procedure-like unit drops its internals when proc_internals is off" if val else
-               f"`{ast.unparse(first.test)}` is false for {cls} (obj == 'proc'): its internals stay documented "
-               f"with proc_internals off", py.nloc(first))
+               f"prune() of {cls} (obj == 'proc') has no path on which proc_internals=off empties {list(internals)}: its "
+               f"internals stay documented with proc_internals off (paths: {[l for l, _ in paths]})", py.nloc(py.resolve_method(cls, 'prune')[1]))
+    if not n_proc:
+        raise AnalysisError("no class with obj == 'proc' found")
 
 
 def r5_graph_links_and_constructor(ctx, rep):
